@@ -64,13 +64,17 @@ impl Generator {
 
         // at this point, stack has no MARKs, just regular items
         // keep combining until we have exactly 1 item
-        // use TUPLE2/TUPLE3 which don't require MARKs
+        // use TUPLE2/TUPLE3 which don't require MARKs; they only exist from
+        // protocol 2 on, so protocols 0 and 1 drop the surplus items with POP
+        let has_tuple_n = self.state.version >= Version::V2;
         let mut safety_counter = 0;
         while self.state.stack.len() > 1 && safety_counter < 10000 {
             safety_counter += 1;
 
             let stack_len = self.state.stack.len();
-            if stack_len >= 3 {
+            if !has_tuple_n {
+                self.emit_opcode(Pop);
+            } else if stack_len >= 3 {
                 self.emit_opcode(Tuple3);
             } else if stack_len == 2 {
                 self.emit_opcode(Tuple2);
